@@ -130,9 +130,35 @@ Definition run_session (args : list str) : str :=
                                          then show_bool (has_capability false [] p)
                                          else [33]) probes).
 
+(* ---- cap.tagsrace: A's gate is decided by the CAP lines handled before it was sent, the
+   gate of the events queued behind the blocked write by all of them ------------------- *)
+Definition race_tags (kind : N) : option (amap str) :=
+  if N.eqb kind 116 then Some [([107], [118])]          (* t *)
+  else if N.eqb kind 101 then Some []                    (* e *)
+  else None.
+
+Definition run_tagsrace (args : list str) : str :=
+  match parse_nat (nth_arg8 1 args) with
+  | None => bs "?bad-count"
+  | Some n =>
+      let npre := N.to_nat n in
+      let evs := skipn 2 args in
+      if Nat.ltb (length evs) npre || Nat.ltb 12 (length evs) || Nat.ltb 8 (length (nth_arg8 0 args))
+      then bs "?bad-count" else
+      let cfg := cfg_of_bits [] [] in
+      let feed := fun st ev => fst (handle_cap sort_strs cfg false now0 st (split_byte 10 ev)) in
+      let st1 := fold_left feed (firstn npre evs) (cap_init sts_init) in
+      let st2 := fold_left feed (skipn npre evs) st1 in
+      bs "a=" ++ show_bool (tag_section_present (send_loop_tags (st_enabled st1) (race_tags 116))) ++
+      bs "|b=" ++ concat (List.map (fun kd => show_bool (tag_section_present
+                                              (send_loop_tags (st_enabled st2) (race_tags kd))))
+                                   (nth_arg8 0 args))
+  end.
+
 Definition run_C08 (suite : str) (args : list str) : option str :=
   if streqb suite (bs "cap.parse") then Some (render_capmap (parse_cap (nth_arg8 0 args)))
   else if streqb suite (bs "cap.session") then Some (run_session args)
   else if streqb suite (bs "cap.ackremoval") then Some (run_session args)
   else if streqb suite (bs "cap.enum") then Some (run_session args)
+  else if streqb suite (bs "cap.tagsrace") then Some (run_tagsrace args)
   else None.
